@@ -857,6 +857,10 @@ class Rewriter:
         b = self.sub('R25:forget', r'\bmem::forget\(self\)', 'vec_forget(self.vec)', b)
         b = self.sub('R25:ok-pattern', r'\bOk\(\.\.\) =>', 'Ok(_) =>', b)
         b = self.sub('R12:thread-heap', r'\bself\.vec\.capacity\(\)', 'self.vec.capacity(hs)', b)
+        # forwards to str's own trait methods on the whole text (`&self[..]`, `&**self`, `**self` are the Deref)
+        b = self.sub('R25:str-forward', r'\bPartialEq::eq\(&self\[\.\.\], &other\[\.\.\]\)', 'str_partial_eq(hs, self.deref(hs), other.deref(hs))', b)
+        b = self.sub('R25:str-forward', r'\bfmt::(Display|Debug)::fmt\(&\*\*self, (\w+)\)', lambda m: 'str_fmt_%s(hs, self.deref(hs), %s, cl)' % (m.group(1).lower(), m.group(2)), b)
+        b = self.sub('R25:str-forward', r'\(\*\*self\)\.hash\((\w+)\)', r'str_hash(hs, self.deref(hs), \1, cl)', b)
         b = self.sub('R25:owned-item', r'\bself\.push_str\(&s\)', 'self.push_str(s)', b)
         b = self.sub('R25:cloned-chars', r'\bself\.extend\(iter\.into_iter\(\)\.cloned\(\)\)', 'self.extend_chars(hs, iter.into_iter())', b)
         for name in ['push_str', 'push', 'reserve']:
